@@ -41,7 +41,7 @@ def make_replay(prop, groups, tier, seed):
         f.write('"""replay for a violation of %s\nfailed obligations (verifier output):\n' % prop)
         for l in info:
             f.write("  " + l.replace('"""', "'''") + "\n")
-        f.write('"""\nimport sys\nsys.path.insert(0, "/repo")\n')
+        f.write('"""\nimport sys\nsys.path.insert(0, __import__("os").environ.get("PYVC_REPO", "/repo"))\n')
         if body:
             f.write(body)
         else:
